@@ -1554,7 +1554,7 @@ Ltac ft_red :=
        j_id j_data j_length j_extended j_remote
        f_id f_len f_data f_remote f_ext set_id set_len set_data set_remote set_ext].
 
-Lemma T_Frame_UnmarshalJSON_of_doc o doc dst d : json_oracle_ok o doc d ->
+Lemma T_Frame_UnmarshalJSON_eq o doc dst d : json_oracle_ok o doc d ->
   Translated.Frame_UnmarshalJSON o (ft_of dst) doc = ft_eres (of_doc d dst).
 Proof.
   unfold json_oracle_ok, Translated.zero_jsonFrame, Translated.Frame_UnmarshalJSON. intros H.
@@ -1566,9 +1566,10 @@ Proof.
   - destruct (o doc _) as [e j]. cbn [fst] in H. subst e. reflexivity.
 Qed.
 
-Lemma T_Frame_UnmarshalJSON_eq o doc dst : json_oracle_ok o doc (read_doc doc) ->
+(** with the model's own oracle: the whole of [unmarshal_json] *)
+Lemma T_Frame_UnmarshalJSON_eq' o doc dst : json_oracle_ok o doc (read_doc doc) ->
   Translated.Frame_UnmarshalJSON o (ft_of dst) doc = ft_eres (unmarshal_json doc dst).
-Proof. apply T_Frame_UnmarshalJSON_of_doc. Qed.
+Proof. apply T_Frame_UnmarshalJSON_eq. Qed.
 
 (* @group render requires can descriptor physical lookup *)
 (** ** the renderings: pkg/canjson/encode.go and pkg/cantext/encode.go (models: Gen/Render.v, Gen/RenderNum.v,
